@@ -188,7 +188,17 @@ func HarnessC06InPlace() {
 	vfsReset()
 	x := string([]byte{vByte("x")})
 	var layout, page, want string
-	switch vChoice("shape", 3) {
+	switch vChoice("shape", 5) {
+	case 3: // a component used inside the insert body
+		vfsWriteFile("templates/components/card.tw", "<{{ t }}>")
+		layout = "[@reserve(\"r\")]"
+		page = "@use(\"~main\")@insert(\"r\")a@component(\"~card\", {t: x})b@end"
+		want = "[a<" + x + ">b]"
+	case 4: // ... and one used by the layout itself next to it
+		vfsWriteFile("templates/components/card.tw", "<{{ t }}>")
+		layout = "@component(\"~card\", {t: \"L\"})[@reserve(\"r\")]"
+		page = "@use(\"~main\")@insert(\"r\")@component(\"~card\", {t: x})@end"
+		want = "<L>[<" + x + ">]"
 	case 0:
 		layout = "{{ h = \"L\" }}[@reserve(\"r\")]{{ h }}"
 		page = "@use(\"~main\")@insert(\"r\"){{ h = x }}b@end"
